@@ -48,6 +48,7 @@ class Entry:
         self.const_proof = kw.pop('const_proof', None) # ghost block placed before the initialiser
         self.d1 = kw.pop('d1', False)   # generic D1: split or-patterns that carry a guard
         self.d8 = kw.pop('d8', False)   # generic D8: closure parameter `_` -> `_x`
+        self.closures = kw.pop('closures', False)   # generic D3/D16: Option / iterator closures -> match / loop (vlib/closures.py)
         self.all_loops = kw.pop('all_loops', None)     # invariant text applied to every loop without its own
         self.depth = kw.pop('depth', 0)                # brace depth at which the item sits (nested inline modules)
         if kw:
@@ -470,6 +471,14 @@ class Unit:
             text, n1 = split_or_guards(text)
             if n1:
                 self.desugar_log.append(('D1', '%s: %d or-pattern arm(s) with a guard split into one arm per alternative' % (e.qualname, n1)))
+        if e.closures:
+            from .closures import desugar_closures, NoRule
+            try:
+                text, clog = desugar_closures(text)
+            except NoRule as ex:
+                raise Undecided('closure desugaring of %s: %s' % (e.qualname, ex))
+            for ln_ in clog:
+                self.desugar_log.append((ln_.split(' ')[0] if ln_[0] == 'D' else 'D3', '%s: %s' % (e.qualname, ln_)))
         if e.d8:
             text, n8 = re.subn(r'\|\s*_\s*\|', '|_x|', text)
             if n8:
